@@ -71,6 +71,8 @@ const (
 
 func (f flavour) String() string { return [...]string{"core", "gnosis", "service", "primev", "snapshot"}[f] }
 
+const cOrphanEon = 9
+
 type dbFaults struct {
 	stmtErr  int // permille per request
 	connErr  int
@@ -116,6 +118,8 @@ type worldC struct {
 	kci int64
 	// stmtFault: targeted statement failure (returns true to fail this statement)
 	stmtFault func(nd *cNode, req *pgsim.Request) bool
+	// accessOrphanEonKey: access nodes hold this eon key (eon cOrphanEon) without a keyper set
+	accessOrphanEonKey *shcrypto.EonPublicKey
 	// accessReannounce: access nodes see the keyper set announced twice, first with other members
 	accessReannounce bool
 	eon int64
@@ -577,6 +581,10 @@ func (w *worldC) addAccessNode(name string) *cNode {
 	var keypers []string
 	for _, a := range w.addrs {
 		keypers = append(keypers, shdb.EncodeAddress(a))
+	}
+	if w.accessOrphanEonKey != nil {
+		// the chain sync delivered an eon key broadcast whose keyper set it never got
+		st.AddEonKey(cOrphanEon, w.accessOrphanEonKey)
 	}
 	if w.accessReannounce {
 		// the chain sync announced this keyper set before with other members (the announcing
